@@ -21,6 +21,8 @@ type Obligation struct {
 	Text   string // source text of the clause
 	Gap    string // known gap this obligation is checked under (informational)
 	Expect string // "unsat" normally; "sat" for covers
+	Unless string // covers: the cover may be refuted if this condition (the region's entry) is refuted too (dead code under the preconditions)
+	UnlessPrefix int
 	// replay info
 	Inputs []ReplayInput
 	Sig    *types.Signature
@@ -42,6 +44,7 @@ type ReplayInput struct {
 
 // State is the symbolic memory at a program point.
 type State struct {
+	epoch int               // number of whole-heap havocs on this path (absent heap variables read the epoch's initial constant)
 	heap  map[string]string // heap variable -> current term (absent: initial)
 	reach string
 	now   string
@@ -49,7 +52,7 @@ type State struct {
 }
 
 func (s *State) clone() *State {
-	n := &State{heap: make(map[string]string, len(s.heap)), reach: s.reach, now: s.now, dirty: s.dirty}
+	n := &State{heap: make(map[string]string, len(s.heap)), reach: s.reach, now: s.now, dirty: s.dirty, epoch: s.epoch}
 	for k, v := range s.heap {
 		n.heap[k] = v
 	}
@@ -94,6 +97,7 @@ type Ctx struct {
 	lfSet      map[string]bool // structural entry points (lockfast callees)
 	lfWorld    string
 	feasChecks int
+	epochs   int
 	known      map[string]bool // every name introduced so far
 	loopClean  map[string]bool // loops whose body writes no world state (discovered, then used on the next pass)
 	writes     []writeRec      // every store to a heap variable, in script order
@@ -248,7 +252,26 @@ func (c *Ctx) hget(st *State, name string) string {
 	if t, ok := st.heap[name]; ok {
 		return t
 	}
-	return heap0Name(name)
+	if st.epoch == 0 {
+		return heap0Name(name)
+	}
+	// first use after a whole-heap havoc: an unconstrained constant of that epoch
+	n := fmt.Sprintf("He%d.%s", st.epoch, smtName(name))
+	if !c.known[n] {
+		c.known[n] = true
+		c.emit(fmt.Sprintf("(declare-const %s %s)", n, c.heaps[name].sort))
+	}
+	return n
+}
+
+// havocAll: the callee's frame is unknown: every heap variable gets an unconstrained value.
+func (c *Ctx) havocAll(st *State) {
+	c.epochs++
+	st.epoch = c.epochs
+	st.heap = map[string]string{}
+	nn := c.declare("now.h", "Int")
+	c.assume(fmt.Sprintf("(>= %s %s)", nn, st.now), "")
+	st.now = nn
 }
 
 func (c *Ctx) hset(st *State, name, term string) {
@@ -628,6 +651,11 @@ func (c *Ctx) mergeStates(ins []*State) *State {
 		return ins[0].clone()
 	}
 	out := &State{heap: map[string]string{}}
+	for _, s := range ins {
+		if s.epoch > out.epoch {
+			out.epoch = s.epoch
+		}
+	}
 	var rs []string
 	for _, s := range ins {
 		rs = append(rs, s.reach)
